@@ -176,6 +176,12 @@ def lopsided(kind, tier):
                     a = ["+"] * N
                     a[i] = a[j] = "-"
                     out.append("".join(a))
+        # one charged residue (and two adjacent ones) at every position of an otherwise neutral chain
+        for N in range(6, n1 + 1):
+            for i in range(N):
+                out.append("0" * i + "+" + "0" * (N - 1 - i))
+                if i + 1 < N:
+                    out.append("0" * i + "++" + "0" * (N - 2 - i))
     elif kind == "flank":
         # a stretch of 7..17 neutral residues in front of (or behind) adjacent charge blocks with a tiny minority: the arrangements the
         # few-neutrals search must not skip
@@ -230,7 +236,7 @@ def run(tier, seed, t0):
     return core.finish(
         PROP, tier, seed, acc, t0,
         rule="every charge pattern over {+,-,0} of length 1..%d in K/E/G spelling, plus ALL arrangements of %d sparse "
-             "compositions of total 10..20 (%s), plus lopsided neutral-free families (one minority residue at every position of a majority up to total 40/60, two at every pair up to 22/30; a minority block of 1..8 at offsets 0..6 inside a majority of 20..68/12..90; both signs; 7..17 neutral residues flanking adjacent blocks with a minority of 1-2 against 20-60), plus window-complete medium words, plus eight 260-340-residue patterns with more than 256 residues of one class; each state = one sequence, 3 real calls (get_kappa, get_delta, "
+             "compositions of total 10..20 (%s), plus lopsided neutral-free families (one minority residue at every position of a majority up to total 40/60, two at every pair up to 22/30; one charged residue or two adjacent ones at every position of a neutral chain up to 40/60; a minority block of 1..8 at offsets 0..6 inside a majority of 20..68/12..90; both signs; 7..17 neutral residues flanking adjacent blocks with a minority of 1-2 against 20-60), plus window-complete medium words, plus eight 260-340-residue patterns with more than 256 residues of one class; each state = one sequence, 3 real calls (get_kappa, get_delta, "
              "get_deltaMax; 6 with fresh-object repetition for length<=8) judged by clauses (a) -1 iff deltaMax==0, "
              "(b) kappa == clamp(delta/deltaMax), (c) kappa in {-1} U [0,1]; non-trivial = kappa != -1; outcomes = "
              "distinct kappa values" % (L, len(comps), "(1,n,1),(n,1,1),(1,1,n) slices" if tier == "quick"
